@@ -14,7 +14,7 @@ RULE = ("Hypothesis-generated synthetic rulesets; EVERY pre-terminal of the mode
         "returned count with the number of lines, and the loaded groups with the model's groups (value -> probability). "
         "Markov pre-terminals are compared with an independent OMEN enumerator, including rulesets whose levels have tied "
         "probabilities, and also right after an expansion of a Markov pre-terminal on the same grammar object that a limit cut short. Ordinary pre-terminals are also expanded with drawn guess limits inside, at and past their size (count == lines, lines are combinations). Non-trivial = product of group sizes >= 2 and an alpha word not at position 0, or adjacent alpha "
-        "words, or a Markov level with >= 2 strings; distinct = hash of (model, pre-terminal).")
+        "words, or a Markov level with >= 2 strings; distinct = hash of (model, pre-terminal). Scale part large_preterminal: pre-terminals built on one group of 9001 / 80 021 / 300 007 equally probable values, through the process stdout.")
 ASSUMPTIONS = ["values within one variable are unique (as the trainer guarantees)",
                "a 'U' in a mask means str.upper() of that one character (which may be longer than one character, e.g. ß -> SS)"]
 
